@@ -165,3 +165,25 @@ class Duck:
             if IgnoreAttempt is not None:
                 raise IgnoreAttempt('duck %s does not model .%s' % (type(self).__name__, name))
         raise HarnessLimit('duck %s does not model .%s' % (type(self).__name__, name))
+
+
+class untraced:
+    """run a block at native speed, outside CrossHair's tracer.  ONLY for code whose inputs are fully
+    concrete on the current path (e.g. re-rendering the fixed probe documents after a fault): nothing
+    symbolic may be touched inside."""
+    def __enter__(self):
+        self.cm = None
+        if not CONCRETE:
+            try:
+                from crosshair.tracers import NoTracing, is_tracing
+                if is_tracing():
+                    self.cm = NoTracing()
+                    self.cm.__enter__()
+            except ImportError:
+                pass
+        return self
+
+    def __exit__(self, *a):
+        if self.cm is not None:
+            self.cm.__exit__(*a)
+        return False
